@@ -246,30 +246,358 @@ Proof.
     + intros X Y HX HY BX BY. cbn [fst snd]. apply sub64_spec; assumption.
 Qed.
 
-Lemma body_x86_spec lanes out gsum a b :
-  kernel_ok lanes out = true ->
-  (forall s0 s1 s2 s3, s0 <= 24 -> s1 <= 24 -> s2 <= 24 -> s3 <= 24 -> gsum (pack [s0; s1; s2; s3]) = s0 + s1 + s2 + s3) ->
-  body_len (length a) -> length b = length a -> bytes_all a -> bytes_all b ->
-  body_x86 lanes out gsum a b = body_dist a b.
+(* ---- the x86 wrappers: accumulate / shuffle-reduce / extract ---- *)
+
+Lemma body_dist_le a : forall b, bytes_all a -> bytes_all b -> body_dist a b <= 24 * N.of_nat (length a).
 Proof.
-  intros Hk Hg HL Hb Ba Bb. unfold body_x86, chunks_exact. rewrite Hb.
-  apply (chunks_sum (fun p => gsum (eval 4 lanes out (word_of (fst p)) (word_of (snd p))))); try assumption.
-  - destruct HL as [E|[E|E]]; rewrite E; reflexivity.
-  - rewrite Hb. destruct HL as [E|[E|E]]; rewrite E; reflexivity.
-  - intros X Y HX HY BX BY. cbn [fst snd]. unfold word_of. apply granule4; assumption.
+  induction a as [|x a IH]; intros [|y b] Ha Hb; try (unfold body_dist; cbn; lia).
+  inversion Ha; subst. inversion Hb; subst. rewrite body_dist_cons. pose proof (byte_dist_le x y). pose proof (IH b).
+  cbn [length]. lia.
+Qed.
+
+Lemma chunks_map {B} (f g : list N * list N -> B) n k : forall a b,
+  length a = (k * n)%nat -> length b = (k * n)%nat -> bytes_all a -> bytes_all b ->
+  (forall X Y, length X = n -> length Y = n -> bytes_all X -> bytes_all Y -> f (X, Y) = g (X, Y)) ->
+  map f (combine (chunks_k n k a) (chunks_k n k b)) = map g (combine (chunks_k n k a) (chunks_k n k b)).
+Proof.
+  induction k as [|k IH]; intros a b Ha Hb Ba Bb Hf; [reflexivity|].
+  cbn [chunks_k combine map]. f_equal.
+  - apply Hf; try (rewrite firstn_length; cbn [Nat.mul] in Ha, Hb; lia); apply bytes_all_firstn; assumption.
+  - apply IH; try (rewrite skipn_length; cbn [Nat.mul] in Ha, Hb; lia); try apply bytes_all_skipn; assumption.
+Qed.
+
+Lemma chunks_k_lengths n k : forall l X, length l = (k * n)%nat -> In X (chunks_k n k l) -> length X = n.
+Proof.
+  induction k as [|k IH]; intros l X Hl Hin; [contradiction|]. cbn [chunks_k In] in Hin. destruct Hin as [<-|Hin].
+  - rewrite firstn_length. cbn [Nat.mul] in Hl. lia.
+  - apply (IH (skipn n l)); [rewrite skipn_length; cbn [Nat.mul] in Hl; lia|exact Hin].
+Qed.
+
+Lemma chunks_k_bytes n k : forall l X, bytes_all l -> In X (chunks_k n k l) -> bytes_all X.
+Proof.
+  induction k as [|k IH]; intros l X Bl Hin; [contradiction|]. cbn [chunks_k In] in Hin. destruct Hin as [<-|Hin].
+  - apply bytes_all_firstn; exact Bl.
+  - apply (IH (skipn n l)); [apply bytes_all_skipn; exact Bl|exact Hin].
+Qed.
+
+(* per-granule values of a packed kernel with the multiply-shift epilogue: the reference distance of each granule *)
+Lemma lanes_of_mullo lanes out k x y : kernel_ok lanes out = true ->
+  length x = (k * 4)%nat -> length y = (k * 4)%nat -> bytes_all x -> bytes_all y ->
+  lanes_of granule_sum_mullo lanes out x y =
+  map (fun p => body_dist (fst p) (snd p)) (combine (chunks_k 4 k x) (chunks_k 4 k y)) /\
+  sum_list (lanes_of granule_sum_mullo lanes out x y) = body_dist x y.
+Proof.
+  intros Hk Hx Hy Bx By. unfold lanes_of, chunks_exact. rewrite Hx, Hy, Nat.div_mul by discriminate.
+  assert (E : map (fun p => granule_sum_mullo (eval 4 lanes out (word_of (fst p)) (word_of (snd p))))
+                  (combine (chunks_k 4 k x) (chunks_k 4 k y)) =
+              map (fun p => body_dist (fst p) (snd p)) (combine (chunks_k 4 k x) (chunks_k 4 k y))).
+  { apply chunks_map; try assumption. intros X Y HX HY BX BY. cbn [fst snd]. unfold word_of.
+    apply (granule4 lanes out granule_sum_mullo); try assumption. exact hsum4. }
+  rewrite E. split; [reflexivity|].
+  apply (chunks_sum (fun p => body_dist (fst p) (snd p))); try assumption. intros; reflexivity.
+Qed.
+
+(* sums of lane vectors *)
+Lemma sum_list_nil : sum_list [] = 0. Proof. reflexivity. Qed.
+
+Lemma vec4 (v : list N) : length v = 4%nat -> exists t0 t1 t2 t3, v = [t0; t1; t2; t3].
+Proof. destruct v as [|t0 [|t1 [|t2 [|t3 [|? ?]]]]]; try discriminate. eauto. Qed.
+
+Lemma sum4 t0 t1 t2 t3 : sum_list [t0; t1; t2; t3] = t0 + t1 + t2 + t3.
+Proof. rewrite !sum_list_cons, sum_list_nil. lia. Qed.
+
+Lemma add32v_sum a v : length a = 4%nat -> length v = 4%nat -> sum_list a + sum_list v < 4294967296 ->
+  length (add32v a v) = 4%nat /\ sum_list (add32v a v) = sum_list a + sum_list v.
+Proof.
+  intros La Lv Hb. destruct (vec4 a La) as [a0 [a1 [a2 [a3 ->]]]]. destruct (vec4 v Lv) as [v0 [v1 [v2 [v3 ->]]]].
+  rewrite !sum4 in Hb. unfold add32v. cbn [zipN length]. split; [reflexivity|].
+  rewrite !sum4. rewrite !N.mod_small by lia. lia.
+Qed.
+
+Lemma fold_add32v vs : forall acc, length acc = 4%nat -> (forall v, In v vs -> length v = 4%nat) ->
+  sum_list acc + sum_list (map sum_list vs) < 4294967296 ->
+  length (fold_left add32v vs acc) = 4%nat /\
+  sum_list (fold_left add32v vs acc) = sum_list acc + sum_list (map sum_list vs).
+Proof.
+  induction vs as [|v vs IH]; intros acc La Lv Hb; cbn [fold_left map].
+  - rewrite sum_list_nil. split; [exact La|lia].
+  - cbn [map] in Hb. rewrite sum_list_cons in Hb. rewrite sum_list_cons.
+    assert (Hb1 : sum_list acc + sum_list v < 4294967296) by lia.
+    destruct (add32v_sum acc v La (Lv v (or_introl eq_refl)) Hb1) as [L1 S1].
+    destruct (IH (add32v acc v) L1) as [L2 S2]; [intros w Hw; apply Lv; right; exact Hw|rewrite S1; lia|].
+    split; [exact L2|]. rewrite S2, S1. lia.
+Qed.
+
+(* the shuffle-and-add reduction of the 128-bit wrappers leaves the sum of the four lanes in lane 0 *)
+Lemma reduce4_sse41 v : length v = 4%nat -> sum_list v < 4294967296 ->
+  finish_lane0 (reduce add32v sse41_reduce v) = sum_list v.
+Proof.
+  intros L Hb. destruct (vec4 v L) as [t0 [t1 [t2 [t3 ->]]]]. rewrite sum4 in *.
+  change sse41_reduce with [238; 85]. unfold reduce. cbn [fold_left].
+  change (shuffle32 238 [t0; t1; t2; t3]) with [t2; t3; t2; t3]. unfold add32v at 2. cbn [zipN].
+  match goal with |- context [shuffle32 85 ?s] => change (shuffle32 85 s) with [nth 1 s 0; nth 1 s 0; nth 1 s 0; nth 1 s 0] end.
+  cbn [nth]. unfold add32v, finish_lane0. cbn [zipN nth]. rewrite !N.mod_small by lia. lia.
+Qed.
+
+Lemma vec8 (v : list N) : length v = 8%nat -> exists t0 t1 t2 t3 t4 t5 t6 t7, v = [t0; t1; t2; t3; t4; t5; t6; t7].
+Proof. destruct v as [|t0 [|t1 [|t2 [|t3 [|t4 [|t5 [|t6 [|t7 [|? ?]]]]]]]]]; try discriminate. do 8 eexists. reflexivity. Qed.
+
+Lemma reduce8_avx2 v : length v = 8%nat -> sum_list v < 4294967296 ->
+  finish_extract avx2_extract (reduce add32v avx2_reduce v) = sum_list v.
+Proof.
+  intros L Hb. destruct (vec8 v L) as [t0 [t1 [t2 [t3 [t4 [t5 [t6 [t7 ->]]]]]]]].
+  rewrite !sum_list_cons, sum_list_nil in *.
+  change avx2_reduce with [238; 85]. change avx2_extract with [0; 4]%nat. unfold reduce. cbn [fold_left].
+  change (shuffle32 238 [t0; t1; t2; t3; t4; t5; t6; t7]) with [t2; t3; t2; t3; t6; t7; t6; t7]. unfold add32v at 2. cbn [zipN].
+  match goal with |- context [shuffle32 85 ?s] =>
+    change (shuffle32 85 s) with [nth 1 s 0; nth 1 s 0; nth 1 s 0; nth 1 s 0; nth 5 s 0; nth 5 s 0; nth 5 s 0; nth 5 s 0] end.
+  cbn [nth]. unfold add32v, finish_extract. cbn [zipN nth map]. rewrite !sum_list_cons, sum_list_nil.
+  rewrite !N.mod_small by lia. lia.
+Qed.
+
+Lemma lanes_of_length gsum lanes out k x y : length x = (k * 4)%nat -> length y = (k * 4)%nat ->
+  length (lanes_of gsum lanes out x y) = k.
+Proof.
+  intros Hx Hy. unfold lanes_of, chunks_exact. rewrite Hx, Hy, Nat.div_mul by discriminate.
+  rewrite map_length, combine_length.
+  assert (G : forall n kk (l : list N), length (chunks_k n kk l) = kk) by (induction kk; intros; cbn [chunks_k length]; auto).
+  rewrite !G. lia.
+Qed.
+
+Definition vec_len (n : nat) : Prop := n = 32%nat \/ n = 64%nat.
+
+(* SSE4.1: chunks of 16 bytes accumulated with add_epi32, one reduction *)
+Theorem x86_acc32_spec lanes out a b : kernel_ok lanes out = true ->
+  vec_len (length a) -> length b = length a -> bytes_all a -> bytes_all b ->
+  x86_acc add32v granule_sum_mullo lanes out sse41_reduce finish_lane0 16 a b = body_dist a b.
+Proof.
+  intros Hk HL Hb Ba Bb. unfold x86_acc, chunks_exact. rewrite Hb.
+  set (k := Nat.div (length a) 16).
+  assert (Hka : length a = (k * 16)%nat) by (unfold k; destruct HL as [E|E]; rewrite E; reflexivity).
+  assert (Hkb : length b = (k * 16)%nat) by lia.
+  set (vs := map (fun p => lanes_of granule_sum_mullo lanes out (fst p) (snd p)) (combine (chunks_k 16 k a) (chunks_k 16 k b))).
+  assert (Hvs : map sum_list vs = map (fun p => body_dist (fst p) (snd p)) (combine (chunks_k 16 k a) (chunks_k 16 k b))).
+  { unfold vs. rewrite map_map.
+    apply (chunks_map (fun p => sum_list (lanes_of granule_sum_mullo lanes out (fst p) (snd p)))); try assumption.
+    intros X Y HX HY BX BY. cbn [fst snd]. apply (lanes_of_mullo lanes out 4); assumption. }
+  assert (Hlen : forall v, In v vs -> length v = 4%nat).
+  { intros v Hv. unfold vs in Hv. apply in_map_iff in Hv as [[X Y] [<- Hin]]. cbn [fst snd].
+    apply (lanes_of_length _ _ _ 4).
+    - apply (chunks_k_lengths 16 k a X Hka). apply in_combine_l in Hin. exact Hin.
+    - apply (chunks_k_lengths 16 k b Y Hkb). apply in_combine_r in Hin. exact Hin. }
+  assert (Htot : sum_list (map sum_list vs) = body_dist a b).
+  { rewrite Hvs. apply (chunks_sum (fun p => body_dist (fst p) (snd p))); try assumption. intros; reflexivity. }
+  pose proof (body_dist_le a b Ba Bb) as Hle.
+  assert (Hsmall : body_dist a b < 4294967296) by (destruct HL as [E|E]; rewrite E in Hle; lia).
+  destruct (fold_add32v vs (repeat 0 (Nat.div 16 4))) as [L S]; [reflexivity|exact Hlen|rewrite Htot; cbn; lia|].
+  rewrite reduce4_sse41; [|exact L|rewrite S, Htot; cbn; lia]. rewrite S, Htot. cbn. lia.
+Qed.
+
+(* AVX2: every 32-byte chunk reduced on its own, scalars added *)
+Theorem x86_each_spec lanes out a b : kernel_ok lanes out = true ->
+  vec_len (length a) -> length b = length a -> bytes_all a -> bytes_all b ->
+  x86_each add32v granule_sum_mullo lanes out avx2_reduce (finish_extract avx2_extract) 32 a b = body_dist a b.
+Proof.
+  intros Hk HL Hb Ba Bb. unfold x86_each, chunks_exact. rewrite Hb.
+  set (k := Nat.div (length a) 32).
+  assert (Hka : length a = (k * 32)%nat) by (unfold k; destruct HL as [E|E]; rewrite E; reflexivity).
+  assert (Hkb : length b = (k * 32)%nat) by lia.
+  apply (chunks_sum (fun p => finish_extract avx2_extract (reduce add32v avx2_reduce (lanes_of granule_sum_mullo lanes out (fst p) (snd p)))));
+    try assumption.
+  intros X Y HX HY BX BY. cbn [fst snd].
+  destruct (lanes_of_mullo lanes out 8 X Y Hk HX HY BX BY) as [_ S].
+  pose proof (body_dist_le X Y BX BY) as Hle. rewrite HX in Hle.
+  rewrite reduce8_avx2; [exact S|apply (lanes_of_length _ _ _ 8); assumption|rewrite S; lia].
+Qed.
+
+(* ---- SSE2: 16-bit sums, two per granule ---- *)
+Definition add16 (x y : N) : N := (x mod 65536 + y mod 65536) mod 65536 + 65536 * ((x / 65536 + y / 65536) mod 65536).
+Definition val16 (t : N) : N := t mod 65536 + t / 65536.
+Definition wb (B t : N) : Prop := t mod 65536 <= B /\ t / 65536 <= B.
+
+Lemma add16_parts B1 B2 x y : wb B1 x -> wb B2 y -> B1 + B2 < 65536 ->
+  (add16 x y) mod 65536 = x mod 65536 + y mod 65536 /\ (add16 x y) / 65536 = x / 65536 + y / 65536.
+Proof.
+  intros [X1 X2] [Y1 Y2] Hb. unfold add16.
+  rewrite (N.mod_small (x mod 65536 + y mod 65536)) by lia. rewrite (N.mod_small (x / 65536 + y / 65536)) by lia.
+  set (LO := x mod 65536 + y mod 65536) in *. set (HI := x / 65536 + y / 65536) in *.
+  assert (HLO : LO < 65536) by lia.
+  replace (LO + 65536 * HI) with (LO + HI * 65536) by lia.
+  rewrite N.mod_add by discriminate. rewrite N.div_add by discriminate.
+  rewrite N.mod_small by exact HLO. rewrite N.div_small by exact HLO. split; lia.
+Qed.
+
+Lemma add16_wb B1 B2 x y : wb B1 x -> wb B2 y -> B1 + B2 < 65536 ->
+  wb (B1 + B2) (add16 x y) /\ val16 (add16 x y) = val16 x + val16 y.
+Proof.
+  intros Hx Hy Hb. destruct (add16_parts B1 B2 x y Hx Hy Hb) as [E1 E2]. destruct Hx as [X1 X2], Hy as [Y1 Y2].
+  unfold wb, val16. rewrite E1, E2. repeat split; lia.
+Qed.
+
+Lemma words_pack s0 s1 s2 s3 : s0 <= 24 -> s1 <= 24 -> s2 <= 24 -> s3 <= 24 ->
+  granule_words_sse2 (pack [s0; s1; s2; s3]) = (s0 + s1) + 65536 * (s2 + s3).
+Proof.
+  intros. unfold granule_words_sse2. cbn [pack].
+  replace (s0 + 256 * (s1 + 256 * (s2 + 256 * (s3 + 256 * 0)))) with ((s0 + 256 * s1) + (s2 + 256 * s3) * 65536) by lia.
+  rewrite N.mod_add by discriminate. rewrite (N.mod_small (s0 + 256 * s1)) by lia.
+  rewrite N.div_add by discriminate. rewrite (N.div_small (s0 + 256 * s1) 65536) by lia. rewrite N.add_0_l.
+  rewrite !half_sum by assumption. reflexivity.
+Qed.
+
+(* one granule of the SSE2 packed kernel: two 16-bit sums <= 48 whose total is the granule's reference distance *)
+Definition gsum_chk (s : N) : N :=
+  let w := granule_words_sse2 s in
+  if (w mod 65536 <=? 48) && (w / 65536 <=? 48) then val16 w else 1099511627776.
+
+Lemma gsum_chk_pack s0 s1 s2 s3 : s0 <= 24 -> s1 <= 24 -> s2 <= 24 -> s3 <= 24 ->
+  gsum_chk (pack [s0; s1; s2; s3]) = s0 + s1 + s2 + s3.
+Proof.
+  intros. unfold gsum_chk. rewrite words_pack by assumption. unfold val16.
+  replace (s0 + s1 + 65536 * (s2 + s3)) with ((s0 + s1) + (s2 + s3) * 65536) by lia.
+  rewrite N.mod_add by discriminate. rewrite N.div_add by discriminate.
+  rewrite (N.mod_small (s0 + s1)) by lia. rewrite (N.div_small (s0 + s1)) by lia.
+  destruct (N.leb_spec (s0 + s1) 48); [|lia]. destruct (N.leb_spec (0 + (s2 + s3)) 48); [|lia]. cbn [andb]. lia.
+Qed.
+
+Lemma granule_sse2 lanes out X Y : kernel_ok lanes out = true ->
+  length X = 4%nat -> length Y = 4%nat -> bytes_all X -> bytes_all Y ->
+  wb 48 (granule_words_sse2 (eval 4 lanes out (word_of X) (word_of Y))) /\
+  val16 (granule_words_sse2 (eval 4 lanes out (word_of X) (word_of Y))) = body_dist X Y.
+Proof.
+  intros Hk HX HY BX BY. unfold word_of.
+  pose proof (granule4 lanes out gsum_chk X Y Hk gsum_chk_pack HX HY BX BY) as G.
+  pose proof (body_dist_le X Y BX BY) as Hle. rewrite HX in Hle.
+  unfold gsum_chk in G. set (w := granule_words_sse2 (eval 4 lanes out (pack X) (pack Y))) in *.
+  destruct (N.leb_spec (w mod 65536) 48); destruct (N.leb_spec (w / 65536) 48); cbn [andb] in G; try lia.
+  split; [split; assumption|exact G].
+Qed.
+
+Definition vsum16 (v : list N) : N := sum_list (map val16 v).
+
+Lemma vsum16_4 t0 t1 t2 t3 : vsum16 [t0; t1; t2; t3] = val16 t0 + val16 t1 + val16 t2 + val16 t3.
+Proof. unfold vsum16. cbn [map]. apply sum4. Qed.
+
+Lemma lanes_of_sse2 lanes out k x y : kernel_ok lanes out = true ->
+  length x = (k * 4)%nat -> length y = (k * 4)%nat -> bytes_all x -> bytes_all y ->
+  Forall (wb 48) (lanes_of granule_words_sse2 lanes out x y) /\
+  vsum16 (lanes_of granule_words_sse2 lanes out x y) = body_dist x y.
+Proof.
+  intros Hk Hx Hy Bx By. unfold lanes_of, chunks_exact, vsum16. rewrite Hx, Hy, Nat.div_mul by discriminate. split.
+  - apply Forall_forall. intros w Hw. apply in_map_iff in Hw as [[X Y] [<- Hin]]. cbn [fst snd].
+    apply granule_sse2; try assumption.
+    + apply (chunks_k_lengths 4 k x X Hx). apply in_combine_l in Hin. exact Hin.
+    + apply (chunks_k_lengths 4 k y Y Hy). apply in_combine_r in Hin. exact Hin.
+    + apply in_combine_l in Hin. exact (chunks_k_bytes 4 k x X Bx Hin).
+    + apply in_combine_r in Hin. exact (chunks_k_bytes 4 k y Y By Hin).
+  - rewrite map_map.
+    apply (chunks_sum (fun p => val16 (granule_words_sse2 (eval 4 lanes out (word_of (fst p)) (word_of (snd p)))))); try assumption.
+    intros X Y HX HY BX BY. cbn [fst snd]. apply granule_sse2; assumption.
+Qed.
+
+Lemma add16v_sum B1 B2 a v : length a = 4%nat -> length v = 4%nat -> Forall (wb B1) a -> Forall (wb B2) v -> B1 + B2 < 65536 ->
+  length (add16v a v) = 4%nat /\ Forall (wb (B1 + B2)) (add16v a v) /\ vsum16 (add16v a v) = vsum16 a + vsum16 v.
+Proof.
+  intros La Lv Wa Wv Hb. destruct (vec4 a La) as [a0 [a1 [a2 [a3 ->]]]]. destruct (vec4 v Lv) as [v0 [v1 [v2 [v3 ->]]]].
+  inversion Wa as [|? ? A0 Wa1]; subst. inversion Wa1 as [|? ? A1 Wa2]; subst. inversion Wa2 as [|? ? A2 Wa3]; subst.
+  inversion Wa3 as [|? ? A3 _]; subst.
+  inversion Wv as [|? ? V0 Wv1]; subst. inversion Wv1 as [|? ? V1 Wv2]; subst. inversion Wv2 as [|? ? V2 Wv3]; subst.
+  inversion Wv3 as [|? ? V3 _]; subst.
+  assert (EZ : add16v = zipN add16) by reflexivity. rewrite EZ. cbn [zipN length].
+  destruct (add16_wb B1 B2 a0 v0 A0 V0 Hb) as [W0 S0]. destruct (add16_wb B1 B2 a1 v1 A1 V1 Hb) as [W1 S1].
+  destruct (add16_wb B1 B2 a2 v2 A2 V2 Hb) as [W2 S2]. destruct (add16_wb B1 B2 a3 v3 A3 V3 Hb) as [W3 S3].
+  split; [reflexivity|]. split; [exact (Forall_cons _ W0 (Forall_cons _ W1 (Forall_cons _ W2 (Forall_cons _ W3 (Forall_nil _)))))|].
+  rewrite !vsum16_4. lia.
+Qed.
+
+Lemma fold_add16v vs : forall acc B, length acc = 4%nat -> Forall (wb B) acc ->
+  (forall v, In v vs -> length v = 4%nat /\ Forall (wb 48) v) -> B + 48 * N.of_nat (length vs) < 65536 ->
+  length (fold_left add16v vs acc) = 4%nat /\ Forall (wb (B + 48 * N.of_nat (length vs))) (fold_left add16v vs acc) /\
+  vsum16 (fold_left add16v vs acc) = vsum16 acc + sum_list (map vsum16 vs).
+Proof.
+  induction vs as [|v vs IH]; intros acc B La Wa Hv Hb; cbn [fold_left map length].
+  - rewrite sum_list_nil. replace (B + 48 * N.of_nat 0) with B by lia. split; [exact La|]. split; [exact Wa|lia].
+  - destruct (Hv v (or_introl eq_refl)) as [Lv Wv]. cbn [length] in Hb.
+    destruct (add16v_sum B 48 acc v La Lv Wa Wv) as [L1 [W1 S1]]; [lia|].
+    destruct (IH (add16v acc v) (B + 48) L1 W1) as [L2 [W2 S2]]; [intros w Hw; apply Hv; right; exact Hw|lia|].
+    split; [exact L2|]. split.
+    + replace (B + 48 * N.of_nat (S (length vs))) with (B + 48 + 48 * N.of_nat (length vs)) by lia. exact W2.
+    + rewrite S2, S1, sum_list_cons. lia.
+Qed.
+
+Lemma add16v_zip : add16v = zipN add16.
+Proof. reflexivity. Qed.
+
+Lemma reduce4_sse2 B v : length v = 4%nat -> Forall (wb B) v -> 4 * B < 65536 ->
+  finish_sse2 (reduce add16v sse2_reduce v) = vsum16 v.
+Proof.
+  intros L W Hb. destruct (vec4 v L) as [t0 [t1 [t2 [t3 ->]]]].
+  inversion W as [|? ? W0 Wr1]; subst. inversion Wr1 as [|? ? W1 Wr2]; subst. inversion Wr2 as [|? ? W2 Wr3]; subst.
+  inversion Wr3 as [|? ? W3 _]; subst.
+  change sse2_reduce with [238; 85]. unfold reduce. cbn [fold_left]. rewrite add16v_zip.
+  change (shuffle32 238 [t0; t1; t2; t3]) with [t2; t3; t2; t3]. cbn [zipN].
+  change (shuffle32 85 [add16 t0 t2; add16 t1 t3; add16 t2 t2; add16 t3 t3])
+    with [add16 t1 t3; add16 t1 t3; add16 t1 t3; add16 t1 t3].
+  cbn [zipN]. unfold finish_sse2. cbn [nth].
+  destruct (add16_wb B B t0 t2 W0 W2) as [U0 S0]; [lia|]. destruct (add16_wb B B t1 t3 W1 W3) as [U1 S1]; [lia|].
+  destruct (add16_wb (B + B) (B + B) _ _ U0 U1) as [[F1 F2] S]; [lia|].
+  rewrite vsum16_4.
+  set (T := add16 (add16 t0 t2) (add16 t1 t3)) in *.
+  change (T mod 65536 + T / 65536) with (val16 T). rewrite S, S0, S1.
+  assert (Hv : forall t, wb B t -> val16 t <= 2 * B) by (intros t [A1 A2]; unfold val16; lia).
+  pose proof (Hv _ W0). pose proof (Hv _ W1). pose proof (Hv _ W2). pose proof (Hv _ W3).
+  rewrite N.mod_small by lia. lia.
+Qed.
+
+Theorem x86_acc16_spec lanes out a b : kernel_ok lanes out = true ->
+  vec_len (length a) -> length b = length a -> bytes_all a -> bytes_all b ->
+  x86_acc add16v granule_words_sse2 lanes out sse2_reduce finish_sse2 16 a b = body_dist a b.
+Proof.
+  intros Hk HL Hb Ba Bb. unfold x86_acc, chunks_exact. rewrite Hb.
+  set (k := Nat.div (length a) 16).
+  assert (Hka : length a = (k * 16)%nat) by (unfold k; destruct HL as [E|E]; rewrite E; reflexivity).
+  assert (Hkb : length b = (k * 16)%nat) by lia.
+  assert (Hk4 : (k <= 4)%nat) by (unfold k; destruct HL as [E|E]; rewrite E; cbn; lia).
+  set (vs := map (fun p => lanes_of granule_words_sse2 lanes out (fst p) (snd p)) (combine (chunks_k 16 k a) (chunks_k 16 k b))).
+  assert (Hvs : map vsum16 vs = map (fun p => body_dist (fst p) (snd p)) (combine (chunks_k 16 k a) (chunks_k 16 k b))).
+  { unfold vs. rewrite map_map.
+    apply (chunks_map (fun p => vsum16 (lanes_of granule_words_sse2 lanes out (fst p) (snd p)))); try assumption.
+    intros X Y HX HY BX BY. cbn [fst snd]. apply (lanes_of_sse2 lanes out 4); assumption. }
+  assert (Hin : forall v, In v vs -> length v = 4%nat /\ Forall (wb 48) v).
+  { intros v Hv. unfold vs in Hv. apply in_map_iff in Hv as [[X Y] [<- Hin]]. cbn [fst snd].
+    assert (LX : length X = 16%nat) by (apply (chunks_k_lengths 16 k a X Hka); apply in_combine_l in Hin; exact Hin).
+    assert (LY : length Y = 16%nat) by (apply (chunks_k_lengths 16 k b Y Hkb); apply in_combine_r in Hin; exact Hin).
+    split; [apply (lanes_of_length _ _ _ 4); assumption|].
+    apply (lanes_of_sse2 lanes out 4); try assumption.
+    - apply in_combine_l in Hin. exact (chunks_k_bytes 16 k a X Ba Hin).
+    - apply in_combine_r in Hin. exact (chunks_k_bytes 16 k b Y Bb Hin). }
+  assert (Htot : sum_list (map vsum16 vs) = body_dist a b).
+  { rewrite Hvs. apply (chunks_sum (fun p => body_dist (fst p) (snd p))); try assumption. intros; reflexivity. }
+  assert (Lvs : length vs = k).
+  { unfold vs. rewrite map_length, combine_length.
+    assert (G : forall n kk (l : list N), length (chunks_k n kk l) = kk) by (induction kk; intros; cbn [chunks_k length]; auto).
+    rewrite !G. lia. }
+  destruct (fold_add16v vs (repeat 0 (Nat.div 16 4)) 0) as [L [W S]].
+  - reflexivity.
+  - cbn [Nat.div repeat]. assert (Z0 : wb 0 0) by (split; cbn; lia).
+    exact (Forall_cons _ Z0 (Forall_cons _ Z0 (Forall_cons _ Z0 (Forall_cons _ Z0 (Forall_nil _))))).
+  - exact Hin.
+  - rewrite Lvs. lia.
+  - rewrite (reduce4_sse2 (0 + 48 * N.of_nat (length vs))); [|exact L|exact W|rewrite Lvs; lia].
+    rewrite S, Htot. change (vsum16 (repeat 0 (Nat.div 16 4))) with 0. lia.
 Qed.
 
 Theorem dist_body_spec c a b : body_len (length a) -> length b = length a -> bytes_all a -> bytes_all b ->
   dist_body c a b = body_dist a b.
 Proof.
   intros HL Hb Ba Bb. unfold dist_body.
-  destruct (Nat.eqb (length a) 12).
+  destruct (Nat.eqb_spec (length a) 12) as [E12|N12].
   - destruct (cc_body c =? 0); [apply body_pseudo32_spec | apply body_pseudo64_spec]; assumption.
-  - destruct (cc_body c =? 0); [apply body_pseudo32_spec; assumption|].
+  - assert (HV : vec_len (length a)) by (destruct HL as [E|[E|E]]; [contradiction|left; exact E|right; exact E]).
+    destruct (cc_body c =? 0); [apply body_pseudo32_spec; assumption|].
     destruct (cc_body c =? 1); [apply body_pseudo64_spec; assumption|].
-    destruct (cc_body c =? 2); [apply body_x86_spec; try assumption; [exact sse2_ok | exact hsum_sse2]|].
-    destruct (cc_body c =? 3); [apply body_x86_spec; try assumption; [exact sse41_ok | exact hsum4]|].
-    apply body_x86_spec; try assumption; [exact avx2_ok | exact hsum4].
+    destruct (cc_body c =? 2); [apply x86_acc16_spec; try assumption; exact sse2_ok|].
+    destruct (cc_body c =? 3); [apply x86_acc32_spec; try assumption; exact sse41_ok|].
+    apply x86_each_spec; try assumption; exact avx2_ok.
 Qed.
 
 (* ---- the whole comparison ---- *)
@@ -299,3 +627,4 @@ Proof.
   - rewrite (dist_length_spec c _ _ Hal Hbl). cbn [bind]. reflexivity.
   - cbn [bind]. reflexivity.
 Qed.
+
